@@ -1282,6 +1282,7 @@ type loopCtx struct {
 	names map[string]Val // extra names visible in invariants (index, seen, cnt)
 	pos   token.Pos
 	body  *ast.BlockStmt
+	head  *State // the state at the head of the iteration being executed (after the invariants are assumed)
 }
 
 func (x *Exec) loopSpec(pos token.Pos, fingerprint string) (int, *LoopSpec) {
@@ -1352,6 +1353,28 @@ func (x *Exec) checkInvs(st *State, lc *loopCtx, phase string) {
 			x.assertNamed(st, name, "inv-"+phase, g, exprText(cj), token.Position{Filename: inv.File, Line: inv.Line})
 		}
 	}
+	if phase != "pres" || lc.head == nil {
+		return
+	}
+	// transition relation of one iteration
+	for i, sc := range lc.spec.Steps {
+		env := x.specEnvAt(st, lc.body.Lbrace+1)
+		for k, v := range lc.names {
+			env.names[k] = v
+		}
+		env.prev = lc.head
+		for j, cj := range splitConj(sc.Expr) {
+			g := env.boolean(cj)
+			name := fmt.Sprintf("step%d.%d", lc.n, i+1)
+			if sc.Label != "" {
+				name = fmt.Sprintf("step%d.%s", lc.n, sc.Label)
+			}
+			if j > 0 {
+				name += fmt.Sprintf(".%d", j+1)
+			}
+			x.assertNamed(st, name, "loop-step", g, "every iteration: "+exprText(cj), token.Position{Filename: sc.File, Line: sc.Line})
+		}
+	}
 }
 
 func (x *Exec) assumeInvs(st *State, lc *loopCtx) {
@@ -1365,6 +1388,7 @@ func (x *Exec) assumeInvs(st *State, lc *loopCtx) {
 		}
 		x.assume(st, env.boolean(inv.Expr))
 	}
+	lc.head = st.clone()
 }
 
 // modifiedBy runs the loop body once in dry mode and reports which state keys it may change.
